@@ -2683,6 +2683,102 @@ theorem tot_congr_cells (A B : ι → ι → ℝ) (h : ∀ a b, A a b = B a b) :
 
 end pointwise
 
+section renumber
+open BigOperators Finset
+variable {ι : Type} [Fintype ι] [DecidableEq ι]
+
+/-- renumbering the nodes by a permutation `σ`: a walk in the renumbered matrix from `x` to `y` is a walk in the original matrix from `σ x` to
+`σ y` (the intermediate node `z` corresponds to `σ z`) -/
+theorem walk_renum (G : ι → ι → ℝ) (σ : Equiv.Perm ι) (x : ι) :
+    ∀ m y, walk (fun a b => G (σ a) (σ b)) x y m ↔ walk G (σ x) (σ y) m := by
+  intro m
+  induction m with
+  | zero =>
+    intro y
+    rw [walk_zero, walk_zero]
+    exact σ.injective.eq_iff.symm
+  | succ m ih =>
+    intro y
+    rw [walk_succ, walk_succ]
+    constructor
+    · rintro ⟨z, hz, hG⟩
+      exact ⟨σ z, (ih z).mp hz, hG⟩
+    · rintro ⟨z, hz, hG⟩
+      refine ⟨σ.symm z, (ih (σ.symm z)).mpr ?_, ?_⟩
+      · rw [Equiv.apply_symm_apply]; exact hz
+      · show G (σ (σ.symm z)) (σ y) ≠ 0
+        rw [Equiv.apply_symm_apply]; exact hG
+
+/-- the hop distance is invariant under renumbering the nodes -/
+theorem sdist_renum (G : ι → ι → ℝ) (σ : Equiv.Perm ι) (x y : ι) :
+    sdist (fun a b => G (σ a) (σ b)) x y = sdist G (σ x) (σ y) := by
+  unfold sdist
+  congr 1
+  ext m
+  exact and_congr Iff.rfl (walk_renum G σ x m y)
+
+theorem wwalk_renum (G : ι → ι → ℝ) (σ : Equiv.Perm ι) (x : ι) :
+    ∀ m y ℓ, wwalk (fun a b => G (σ a) (σ b)) x y m ℓ ↔ wwalk G (σ x) (σ y) m ℓ := by
+  intro m
+  induction m with
+  | zero =>
+    intro y ℓ
+    rw [wwalk_zero, wwalk_zero]
+    exact and_congr σ.injective.eq_iff.symm Iff.rfl
+  | succ m ih =>
+    intro y ℓ
+    rw [wwalk_succ, wwalk_succ]
+    constructor
+    · rintro ⟨z, ℓ', hz, hG, hℓ⟩
+      exact ⟨σ z, ℓ', (ih z ℓ').mp hz, hG, hℓ⟩
+    · rintro ⟨z, ℓ', hz, hG, hℓ⟩
+      refine ⟨σ.symm z, ℓ', (ih (σ.symm z) ℓ').mpr ?_, ?_, ?_⟩
+      · rw [Equiv.apply_symm_apply]; exact hz
+      · show G (σ (σ.symm z)) (σ y) ≠ 0
+        rw [Equiv.apply_symm_apply]; exact hG
+      · show ℓ = ℓ' + G (σ (σ.symm z)) (σ y)
+        rw [Equiv.apply_symm_apply]; exact hℓ
+
+theorem reachw_renum (G : ι → ι → ℝ) (σ : Equiv.Perm ι) (x y : ι) :
+    reachw (fun a b => G (σ a) (σ b)) x y ↔ reachw G (σ x) (σ y) := by
+  unfold reachw
+  exact exists_congr fun m => exists_congr fun ℓ => wwalk_renum G σ x m y ℓ
+
+/-- the weighted distance is invariant under renumbering the nodes -/
+theorem wd_renum (G : ι → ι → ℝ) (σ : Equiv.Perm ι) (x y : ι) :
+    wd (fun a b => G (σ a) (σ b)) x y = wd G (σ x) (σ y) := by
+  unfold wd
+  congr 1
+  ext ℓ
+  exact exists_congr fun m => wwalk_renum G σ x m y ℓ
+
+/-- the matrix total is invariant under renumbering the nodes -/
+theorem tot_renum (M : ι → ι → ℝ) (σ : Equiv.Perm ι) :
+    tot (fun a b => M (σ a) (σ b)) = tot M := by
+  unfold tot
+  rw [← Equiv.sum_comp σ (fun x => ∑ y, M x y)]
+  exact Finset.sum_congr rfl fun a _ => Equiv.sum_comp σ (fun y => M (σ a) y)
+
+/-- SMT-shaped forms: the renumbered matrix is a separate matrix `H` that agrees with the renumbering in every cell -/
+theorem sdist_renum_cells (G H : ι → ι → ℝ) (σ : Equiv.Perm ι) (h : ∀ a b, H a b = G (σ a) (σ b)) :
+    ∀ x y, sdist H x y = sdist G (σ x) (σ y) := by
+  intro x y
+  rw [matrix_ext_cells H (fun a b => G (σ a) (σ b)) h]
+  exact sdist_renum G σ x y
+
+theorem wd_renum_cells (G H : ι → ι → ℝ) (σ : Equiv.Perm ι) (h : ∀ a b, H a b = G (σ a) (σ b)) :
+    ∀ x y, wd H x y = wd G (σ x) (σ y) := by
+  intro x y
+  rw [matrix_ext_cells H (fun a b => G (σ a) (σ b)) h]
+  exact wd_renum G σ x y
+
+theorem tot_renum_cells (M H : ι → ι → ℝ) (σ : Equiv.Perm ι) (h : ∀ a b, H a b = M (σ a) (σ b)) :
+    tot H = tot M := by
+  rw [matrix_ext_cells H (fun a b => M (σ a) (σ b)) h]
+  exact tot_renum M σ
+
+end renumber
+
 -- (tenth batch, `section dijkstra`: definitions `wwalk`, `reachw`, `wd`; `wd_self`, `wd_nonneg`, `wd_le`, `le_wd`, `wd_approx`, `wd_attained`
 --  (the infimum is a minimum), `wd_relax`, `wd_triangle`, `wwalk_cross(_wd)`, `dijkstra_lower`, `dijkstra_step`, `dijkstra_step_le`,
 --  `dijkstra_step_inv`, `dijkstra_step_T`, `dijkstra_init`, `dijkstra_exhausted`, `dijkstra_smt`, `wd_smt`, `reachw_iff_sdist`, `reachw_iff_walk(_pos)`, `wd_pos`, `wd_pred`:
@@ -2693,5 +2789,7 @@ end pointwise
 -- (twelfth batch, `section wdbinary`: on a 0/1 matrix the weighted distance is the hop distance (`wd_binary`, `wd_binary_smt`, `wwalk_binary_len`,
 --  `wwalk_binary_of_walk`); the hop distance depends only on the support (`walk_congr_support`, `sdist_congr_support`): all proved.)
 -- (thirteenth batch, `section pointwise`: `matrix_ext_cells`, `wd_congr_cells`, `sdist_congr_cells`, `tot_congr_cells`: all proved.)
+-- (fourteenth batch, `section renumber`: `walk_renum`, `sdist_renum`, `wwalk_renum`, `reachw_renum`, `wd_renum`, `tot_renum` and the cell forms
+--  `sdist_renum_cells`, `wd_renum_cells`, `tot_renum_cells`: all proved.)
 
 end VerifLemmas
